@@ -151,6 +151,13 @@ func (e *Engine) addHarnessAPI(p string) {
 	in[p+"vYield"] = func(c *callCtx) Value { return nil }
 	e.visible[p+"vYield"] = true
 	e.yields[p+"vYield"] = true
+	in[p+"vSingleProc"] = func(c *callCtx) Value {
+		f := c.s.eng.pkgFunc(c.s.eng.logPkg, "vNop")
+		if f == nil {
+			c.s.unsupported("vNop missing")
+		}
+		return &Closure{Fn: f}
+	}
 	in[p+"vTier"] = func(c *callCtx) Value { return uint64(c.s.opts.Tier) }
 	in[p+"vSymbolic"] = func(c *callCtx) Value { return true }
 	in[p+"vOpt"] = func(c *callCtx) Value {
